@@ -19,8 +19,6 @@ Definition nl4 : str := [10; 32; 32; 32; 32].
 
 Definition reserved : list str :=
   [kw_true; kw_false; kw_nil; kw_inf; kw_now; kw_immediately; kw_MIDI; kw_BLOB].
-Definition str_eqb (a b : str) : bool :=
-  Nat.eqb (length a) (length b) && starts_with a b.
 Definition is_reserved (s : str) : bool := existsb (str_eqb s) reserved.
 
 (* "Symbol": are quotes required? *)
@@ -130,17 +128,215 @@ Fixpoint next_arg_offset (l : list av) : Z :=
 
 Definition skipz {A} (n : Z) (l : list A) : list A := skipn (Z.to_nat n) l.
 
-(* rtosc_print_arg_val on the slot sequence starting at the argument *)
-Definition print_arg_val (o : popts) (args : list av) (cols : Z) (prev : option av)
-  : option (str * Z * Z) :=
-  match args with
-  | v :: _ => print_scalar o v cols
-  | [] => None
+(* ---- range conversion ------------------------------------------------------- *)
+Definition incsize (l : list av) : Z := match l with VArr _ n :: _ => n + 1 | _ => 1 end.
+Definition hd_type (l : list av) : Z := match l with v :: _ => av_type v | [] => 0 end.
+
+Fixpoint all_eq (a b : list av) : option bool :=
+  match a, b with
+  | [], [] => Some true
+  | x :: a', y :: b' =>
+      match av_eq_single x y with
+      | Some true => all_eq a' b'
+      | Some false => Some false
+      | None => None
+      end
+  | _, _ => Some false
   end.
 
-(* rtosc_convert_to_range: None = 0 (no conversion), Some (converted, skipped) *)
-Definition convert_to_range (o : popts) (args : list av) (size : Z) : option (list av * Z) :=
-  None.
+(* rtosc_arg_vals_eq_single on the elements starting at l and r (arrays
+   without ranges or arrays inside; None = not covered) *)
+Definition elem_eq (l r : list av) : option bool :=
+  match l, r with
+  | VArr t1 n1 :: l', VArr t2 n2 :: r' =>
+      if negb (types_match t1 t2) then Some false
+      else if negb (n1 =? n2) then Some false
+      else all_eq (firstn (Z.to_nat n1) l') (firstn (Z.to_nat n2) r')
+  | v1 :: _, v2 :: _ => if av_type v1 =? av_type v2 then av_eq_single v1 v2 else Some false
+  | _, _ => None
+  end.
+
+(* the first loop: how many leading elements have the type of the first *)
+Fixpoint count_common (fuel : nat) (ty : Z) (l : list av) (i size nc : Z) : Z :=
+  match fuel with
+  | O => nc
+  | S f =>
+      if size <=? i then nc else
+      match l with
+      | [] => nc
+      | v :: _ => if av_type v =? ty
+                  then count_common f ty (skipz (incsize l) l) (i + incsize l) size (nc + 1)
+                  else nc
+      end
+  end.
+
+(* the second loop: Some (skipped, num_common) *)
+Fixpoint run_loop (fuel : nat) (args : list av) (size : Z) (has_delta : bool) (delta : av)
+         (skipped nc : Z) : option (Z * Z) :=
+  match fuel with
+  | O => None
+  | S f =>
+      let cur := skipz skipped args in
+      let next := skipped + incsize cur in
+      let cmp_l := if has_delta
+                   then match cur with
+                        | c :: _ => match av_add c delta with Some a => Some [a] | None => None end
+                        | [] => None end
+                   else Some args in
+      if size <=? next then Some (next, nc + 1) else
+      match cmp_l with
+      | None => None
+      | Some l => match elem_eq l (skipz next args) with
+                  | None => None
+                  | Some true => run_loop f args size has_delta delta next (nc + 1)
+                  | Some false => Some (next, nc + 1)
+                  end
+      end
+  end.
+
+Inductive conv := CNo | CYes (c : list av) (k : Z) | CUnmod.
+
+Definition range_convertible (ty : Z) : bool :=
+  (ty =? 99) || (ty =? 105) || (ty =? 104) || (ty =? 84) || (ty =? 70).
+
+(* rtosc_convert_to_range(arg, size, arg_out, opt) *)
+Definition convert_to_range (o : popts) (args : list av) (size : Z) : conv :=
+  if (size <? 5) || (hd_type args =? 45) || negb (compress o) then CNo else
+  let ty := hd_type args in
+  if count_common (length args) ty args 0 size 0 <? 5 then CNo else
+  match elem_eq args (skipz (incsize args) args) with
+  | None => CUnmod
+  | Some e =>
+      if negb e && negb (range_convertible ty) then CNo else
+      let dl := if e then Some VN   (* unused *)
+                else match args with
+                     | a0 :: a1 :: _ => av_sub a1 a0
+                     | _ => None end in
+      match dl with
+      | None => CUnmod
+      | Some delta =>
+          match run_loop (length args) args size (negb e) delta (incsize args) 1 with
+          | None => CUnmod
+          | Some (skipped, nc) =>
+              if nc <? 5 then CNo else
+              let hdz := if e then 0 else 1 in
+              let used := 1 + hdz + incsize args in
+              CYes (VRep nc hdz :: (if e then [] else [delta]) ++
+                    firstn (Z.to_nat (incsize args)) args ++ [VSpc (skipped - used - 1)]) skipped
+          end
+      end
+  end.
+
+(* ---- rtosc_print_arg_val ------------------------------------------------------- *)
+(* result: (text, returned count, cols_used, the line break went in front of
+   the text: the character before the buffer was overwritten with '\n' and the
+   text starts with the four blanks) *)
+Definition pres := option (str * Z * Z * bool).
+Definition pav_t := popts -> list av -> Z -> option av -> pres.
+
+(* rtosc_print_range for a compressed, finite range *)
+Definition print_range (pav : pav_t) (o : popts) (arg : list av) (cols : Z) (prev : option av) : pres :=
+  match arg with
+  | VRep num hd :: rest =>
+      if negb (compress o) || (num =? 0) then None else
+      if negb (hd =? 0) then
+        match rest with
+        | delta :: firstv :: _ =>
+            match pav o [firstv] cols None, av_from_int (av_type firstv) 1, av_from_int (av_type firstv) (-1) with
+            | Some (t1, w1, c1, false), Some one, Some m_one =>
+                let confusing :=
+                  match prev with
+                  | Some p => if av_type p =? av_type firstv
+                              then match av_eq_single firstv p with
+                                   | Some b => Some (negb b) | None => None end
+                              else Some false
+                  | None => Some false
+                  end in
+                match confusing, av_eq_single delta one, av_eq_single delta m_one with
+                | Some cf, Some e1, Some e2 =>
+                    let mid :=
+                      if (e1 || e2) && negb cf then Some ([], 0, c1)
+                      else match range_arg delta firstv 1 with
+                           | Some second =>
+                               match pav o [second] (c1 + 1) None with
+                               | Some (t2, w2, c2, false) => Some (32 :: t2, 1 + w2, c2)
+                               | _ => None end
+                           | None => None end in
+                    match mid, range_arg delta firstv (num - 1) with
+                    | Some (tm, wm, cm), Some lastv =>
+                        match pav o [lastv] (cm + 5) None with
+                        | Some (t3, w3, c3, false) =>
+                            let '(brk_, c4, _) := lb_check (linelength o) c3 w3 1 in
+                            Some (t1 ++ tm ++ [32; 46; 46; 46] ++ (if brk_ then nl4 else [32]) ++ t3,
+                                  w1 + wm + 5 + w3 + (if brk_ then 4 else 0), c4 + 1, false)
+                        | _ => None end
+                    | _, _ => None end
+                | _, _, _ => None end
+            | _, _, _ => None end
+        | _ => None end
+      else
+        let head := print_d num ++ [120] in
+        match pav o rest (cols + len head) None with
+        | Some (t, w, c, bb) =>
+            Some ((if bb then removelast head ++ [10] else head) ++ t, len head + w, c, false)
+        | None => None end
+  | _ => None
+  end.
+
+(* the loop over the elements of an array; acc does not contain the pending
+   separator; first = last_sep still is buffer-1 (in front of the bracket) *)
+Fixpoint print_array_loop (pav : pav_t) (fuel : nat) (o : popts) (elems : list av) (prev : option av)
+         (i n : Z) (acc : str) (first : bool) (bb : bool) (wrt cols awtl : Z) : pres :=
+  match fuel with
+  | O => None
+  | S f =>
+      if n <? i then Some (acc, wrt, cols, bb) else
+      match convert_to_range o elems (n + 1 - i) with
+      | CUnmod => None
+      | cv =>
+          let input := match cv with CYes c _ => c | _ => elems end in
+          match hd_type elems =? 97, pav o input cols prev with
+          | false, Some (t, tmp, cols1, false) =>
+              let '(brk_, cols2, awtl2) := lb_check (linelength o) cols1 tmp awtl in
+              let inc := match cv with CYes _ k => k | _ => next_arg_offset elems end in
+              let prev2 := nth_error elems (Z.to_nat (inc - 1)) in
+              let acc2 := if first then (if brk_ then [32; 32; 32; 32] ++ acc ++ t else acc ++ t)
+                          else acc ++ (if brk_ then nl4 else [32]) ++ t in
+              print_array_loop pav f o (skipz inc elems) prev2 (i + inc) n acc2 false
+                               (bb || (first && brk_)) (wrt + tmp + (if brk_ then 4 else 0) + 1)
+                               (cols2 + 1) awtl2
+          | _, _ => None
+          end
+      end
+  end.
+
+Definition print_array (pav : pav_t) (o : popts) (arg : list av) (cols : Z) : pres :=
+  match arg with
+  | VArr _ n :: elems =>
+      if n =? 0 then Some ([91; 93], 2, cols + 3, false) else
+      match print_array_loop pav (S (length elems)) o elems None 1 n [91] true false 1 (cols + 1)
+                             (if cols =? 0 then 0 else 1) with
+      | Some (t, w, c, bb) => Some (t ++ [93], w, c + 1, bb)
+      | None => None
+      end
+  | _ => None
+  end.
+
+(* rtosc_print_arg_val on the slot sequence starting at the argument *)
+Fixpoint print_arg_val_f (fuel : nat) (o : popts) (args : list av) (cols : Z) (prev : option av) : pres :=
+  match fuel with
+  | O => None
+  | S f =>
+      match args with
+      | VRep _ _ :: _ => print_range (print_arg_val_f f) o args cols prev
+      | VArr _ _ :: _ => print_array (print_arg_val_f f) o args cols
+      | v :: _ => match print_scalar o v cols with
+                  | Some (t, w, c) => Some (t, w, c, false)
+                  | None => None end
+      | [] => None
+      end
+  end.
+Definition print_arg_val := print_arg_val_f 6.
 
 (* the loop of rtosc_print_arg_vals.  acc = text written so far without the
    pending separator, pend = a separator has been written at last_sep
@@ -154,25 +350,28 @@ Fixpoint print_vals_loop (fuel : nat) (o : popts) (args : list av) (prev : optio
       match args with
       | [] => None
       | a0 :: _ =>
-          let conv := convert_to_range o args (n - i) in
-          let input := match conv with Some (c, _) => c | None => args end in
+          match convert_to_range o args (n - i) with
+          | CUnmod => None
+          | cv =>
+          let input := match cv with CYes c _ => c | _ => args end in
           match print_arg_val o input cols prev with
           | None => None
-          | Some (t, tmp, cols1) =>
+          | Some (t, tmp, cols1, bb) =>
               let '(brk_, cols2, awtl2) :=
                 if breaks_itself (av_type a0) then (false, cols1, awtl)
                 else lb_check (linelength o) cols1 tmp awtl in
-              if brk_ && negb pend then None (* '\n' written in front of the buffer *)
+              if (brk_ || bb) && negb pend then None (* '\n' written in front of the buffer *)
               else
-              let sepz := if brk_ then nl4 else if pend then [32] else [] in
+              let sepz := if brk_ then nl4 else if bb then [10] else if pend then [32] else [] in
               let wrt2 := wrt + tmp + (if brk_ then 4 else 0) in
-              let inc := match conv with Some (_, k) => k | None => next_arg_offset args end in
+              let inc := match cv with CYes _ k => k | _ => next_arg_offset args end in
               let i2 := i + inc in
               let acc2 := acc ++ sepz ++ t in
               let prev2 := nth_error args (Z.to_nat (inc - 1)) in
               if i2 <? n
               then print_vals_loop f o (skipz inc args) prev2 i2 n acc2 true (wrt2 + 1) (cols2 + 1) awtl2
               else print_vals_loop f o (skipz inc args) prev2 i2 n acc2 false wrt2 cols2 awtl2
+          end
           end
       end
   end.
@@ -194,3 +393,40 @@ Definition print_message (o : popts) (addr : str) (args : list av) (cols : Z) : 
       Some (if (Z.of_nat (length args) =? 0) then addr ++ [32] else t, w0 + w)
   | None => None
   end.
+
+(* ---- Spec: the values a slot list stands for (finite ranges expanded, the
+   filler the range conversion leaves behind dropped) --------------------------- *)
+Fixpoint map_opt {A B} (f : A -> option B) (l : list A) : option (list B) :=
+  match l with
+  | [] => Some []
+  | a :: r => match f a, map_opt f r with
+              | Some b, Some t => Some (b :: t)
+              | _, _ => None end
+  end.
+
+Fixpoint expand_f (fuel : nat) (l : list av) : option (list av) :=
+  match fuel with
+  | O => None
+  | S f =>
+      match l with
+      | [] => Some []
+      | VRep num hd :: r =>
+          if num <=? 0 then None else
+          if hd =? 0 then
+            let k := Z.to_nat (incsize r) in
+            match expand_f f (skipn k r) with
+            | Some t => Some (concat (repeat (firstn k r) (Z.to_nat num)) ++ t)
+            | None => None end
+          else
+            match r with
+            | delta :: start :: r' =>
+                match map_opt (fun j => range_arg delta start (Z.of_nat j)) (seq 0 (Z.to_nat num)),
+                      expand_f f r' with
+                | Some vs, Some t => Some (vs ++ t)
+                | _, _ => None end
+            | _ => None end
+      | VSpc _ :: r => expand_f f r
+      | v :: r => match expand_f f r with Some t => Some (v :: t) | None => None end
+      end
+  end.
+Definition expand (l : list av) : option (list av) := expand_f (S (length l)) l.
